@@ -6,6 +6,7 @@ import (
 	"fmt"
 	"io"
 	"runtime"
+	"sort"
 	"strings"
 	"sync"
 	"sync/atomic"
@@ -259,6 +260,20 @@ func TestVerifC18Race(t *testing.T) {
 	// the one cached value (each name can be "first used" once per process, so every case
 	// takes its own names)
 	allNames := strings.Fields(c18rPredefinedNames)
+	// the vertical variants first: their first use loads the horizontal parent too
+	sort.SliceStable(allNames, func(i, j int) bool {
+		return strings.HasSuffix(allNames[i], "V") && !strings.HasSuffix(allNames[j], "V")
+	})
+	probes := [][]byte{{0x20}, {0x41}, {0xb1}, {0x30, 0x00}, {0x4e, 0x00}, {0x88, 0x9f}, {0xb0, 0xa1}, {0xa4, 0xa2}, {0x81, 0x40},
+		{0x21, 0x21}, {0x30, 0x21}, {0x00, 0x00, 0x4e, 0x00}, {0xe4, 0xb8, 0x80}, {0xe3, 0x80, 0x81}, {0x8e, 0xa1, 0xa1, 0xa1}}
+	probe := func(f *cmap.File) string {
+		var b strings.Builder
+		for _, code := range probes {
+			fmt.Fprintf(&b, "%d,%d ", f.LookupCID(code), f.LookupNotdefCID(code))
+		}
+		fmt.Fprintf(&b, "parent=%v", f.Parent != nil)
+		return b.String()
+	}
 	r.Phase("predefined-first-use", len(allNames)/3, func(c *kit.Case) {
 		for _, name := range allNames[3*c.Index : 3*c.Index+3] {
 			const ng = 8
@@ -266,12 +281,16 @@ func TestVerifC18Race(t *testing.T) {
 			start := make(chan struct{})
 			res := make([]*cmap.File, ng)
 			errs := make([]error, ng)
+			seen := make([]string, ng)
 			for gi := 0; gi < ng; gi++ {
 				wg.Add(1)
 				go func(gi int) {
 					defer wg.Done()
 					<-start
 					res[gi], errs[gi] = cmap.Predefined(name)
+					if errs[gi] == nil && res[gi] != nil {
+						seen[gi] = probe(res[gi]) // used at once, as a font decoder would
+					}
 				}(gi)
 			}
 			close(start)
@@ -293,6 +312,18 @@ func TestVerifC18Race(t *testing.T) {
 			again, _ := cmap.Predefined(name)
 			if again != res[0] {
 				c.Violationf("race/predefined-first-use/cache-differs", "a later Predefined(%s) returns another value than the first callers got", name)
+			}
+			if again != nil {
+				settled := probe(again)
+				for gi := 0; gi < ng; gi++ {
+					if seen[gi] != "" && seen[gi] != settled {
+						c.Violationf("race/predefined-first-use/lookups-differ", "goroutine %d used the value of Predefined(%s) as soon as it had it and looked up\n %s\nthe same lookups later give\n %s", gi, name, seen[gi], settled)
+						break
+					}
+				}
+				if again.Parent != nil {
+					c.R.Count("predefined_first_uses_with_parent", 1)
+				}
 			}
 			c.R.Count("predefined_first_uses", 1)
 		}
